@@ -40,7 +40,7 @@ let run (id : string) (ops : string list) (out : out_channel) =
                   prog := C20Model.CDrain (nat_of_int (k - 1)) :: !prog
     | ["c"] -> prog := C20Model.CClose :: !prog
     | _ -> failwith ("c20 op: " ^ s)) ops;
-  let g = { C20Model.close_acks = true; strip_keeps_loss = true; loss_errors = !le; initiated = !ini } in
+  let g = { C20Model.close_acks = true; strip_keeps_loss = true; loss_errors = !le; initiated = !ini; ack_nb = false } in
   let hist = Stdlib.List.rev !hist and prog = Stdlib.List.rev !prog in
   let r = C20Model.run_case g hist prog in
   let ls = lines_of r in
